@@ -1,7 +1,7 @@
 #!/venv/bin/python
 """Development tool: mechanical mutation sweep (complements the hand-written seeded catalogue).
 
-  mutants.py <n-per-file> [--seed N] [--only tools.py,detector.py,...] [--out /root/mutants.json]
+  mutants.py <n-per-file> [--seed N] [--only tools.py,detector.py,...] [--per-function k] [--skip fn,fn] [--out /root/mutants.json]
 
 For every target function (table FUNCS: function -> properties whose check must notice) one-site AST mutants are
 generated (arithmetic / comparison operator replaced, numeric constant changed, unary minus dropped, small subscript
@@ -108,6 +108,16 @@ def generate(fname, n, rnd):
         for si, (kind, node) in enumerate(sites(fn)):
             cand.append((fi, si))
     rnd.shuffle(cand)
+    if PER_FUNCTION:
+        seen, keep = {}, []
+        for fi, si in cand:
+            if fns[fi].name in SKIP:
+                continue
+            if seen.get(fi, 0) < PER_FUNCTION:
+                seen[fi] = seen.get(fi, 0) + 1
+                keep.append((fi, si))
+        cand = keep
+        n = len(cand)
     muts = []
     for fi, si in cand[:n]:
         t2 = copy.deepcopy(tree)
@@ -147,8 +157,17 @@ def run_one(m):
         shutil.rmtree(tmp, ignore_errors=True)
 
 
+PER_FUNCTION = 0
+SKIP = set()
+
+
 def main():
+    global PER_FUNCTION, SKIP
     n = int(sys.argv[1])
+    if "--per-function" in sys.argv:
+        PER_FUNCTION = int(sys.argv[sys.argv.index("--per-function") + 1])
+    if "--skip" in sys.argv:
+        SKIP = set(sys.argv[sys.argv.index("--skip") + 1].split(","))
     seed = int(sys.argv[sys.argv.index("--seed") + 1]) if "--seed" in sys.argv else 0
     only = sys.argv[sys.argv.index("--only") + 1].split(",") if "--only" in sys.argv else list(FUNCS)
     out = sys.argv[sys.argv.index("--out") + 1] if "--out" in sys.argv else "/root/mutants.json"
